@@ -302,17 +302,6 @@ func (s *Service) AddMachine(ctx context.Context, specName, id, nodeName string,
 		},
 	}
 
-	c.Lock()
-	_, have := c.Machines[id]
-	if !have {
-		c.Machines[id] = &m
-	}
-	c.Unlock()
-
-	if have {
-		return Exists
-	}
-
 	ms := MachineState{
 		Mid:        m.Id,
 		SpecSource: m.SpecSource,
@@ -320,7 +309,24 @@ func (s *Service) AddMachine(ctx context.Context, specName, id, nodeName string,
 		Bs:         m.State.Bs,
 	}
 
-	return s.store.WriteState(ctx, s.crewName, []*MachineState{&ms})
+	// Write under the lock, and change the in-memory crew only
+	// after the write succeeded: a failed write leaves the crew as
+	// it was, and a concurrent Process cannot persist a newer
+	// state that this write would then overwrite.
+	c.Lock()
+	defer c.Unlock()
+
+	if _, have := c.Machines[id]; have {
+		return Exists
+	}
+
+	if err := s.store.WriteState(ctx, s.crewName, []*MachineState{&ms}); err != nil {
+		return err
+	}
+
+	c.Machines[id] = &m
+
+	return nil
 }
 
 func (s *Service) RemMachine(ctx context.Context, mid string) error {
@@ -331,11 +337,17 @@ func (s *Service) RemMachine(ctx context.Context, mid string) error {
 
 	// ToDo: Remove timers?
 
+	// As in AddMachine: write under the lock, then change memory.
 	s.crew.Lock()
-	delete(s.crew.Machines, mid)
-	s.crew.Unlock()
+	defer s.crew.Unlock()
 
-	return s.store.WriteState(ctx, s.crewName, []*MachineState{&ms})
+	if err := s.store.WriteState(ctx, s.crewName, []*MachineState{&ms}); err != nil {
+		return err
+	}
+
+	delete(s.crew.Machines, mid)
+
+	return nil
 }
 
 func (s *Service) Route(ctx context.Context, msg interface{}) ([]string, bool, error) {
